@@ -70,10 +70,10 @@ func alphabetOf(sc *Scenario) []rune {
 
 var findKinds = []int{OpMatchString, OpMatchRunes, OpFindString, OpFindRunes, OpFindStringAt, OpFindRunesAt, OpFindAllString, OpFindAllRunes,
 	OpReplace, OpReplace, OpReplaceFunc, OpSplit, OpWalk2, OpCompatMatch, OpCompatSubmatchIndex, OpCompatAllSubmatch, OpCompatAllIndex, OpCompatReader, OpGroupInfo, OpReplaceAt,
-	OpFindString, OpMatchString, OpFindAllString, OpReplace, OpSplit, OpFindRunes, OpMarshalRoundTrip}
+	OpFindString, OpMatchString, OpFindAllString, OpReplace, OpSplit, OpFindRunes, OpMarshalRoundTrip, OpReplaceFuncReentrant, OpWalkMixed, OpWalkMixed}
 
 // multi-match calls (they hold a partial result when a later scan is abandoned)
-var multiKinds = []int{OpReplace, OpReplace, OpReplace, OpReplaceFunc, OpSplit, OpFindAllString, OpFindAllRunes, OpCompatAllIndex, OpFindString}
+var multiKinds = []int{OpReplace, OpReplace, OpReplace, OpReplaceFunc, OpReplaceFuncReentrant, OpSplit, OpFindAllString, OpFindAllRunes, OpCompatAllIndex, OpFindString}
 
 // randSpec draws a corpus pattern with randomised tuning knobs.
 func randSpec(r *rng, knobs bool) (ReSpec, *pat) {
@@ -119,6 +119,14 @@ func genOp(r *rng, re int, p *pat, allowLong bool) Op {
 		if op.N == 0 {
 			op.N = -1
 		}
+	case OpReplaceFuncReentrant:
+		op.Repl = repls[r.n(len(repls))]
+		op.In2 = genInput(r, p, false)
+	case OpWalkMixed:
+		op.Repl = repls[r.n(len(repls))]
+		op.In2 = genInput(r, p, false)
+		op.StartAt = r.n(4)
+		op.N = r.n(2)
 	case OpWalk2:
 		op.In2 = genInput(r, p, false)
 	case OpFindString, OpFindRunes, OpFindStringAt, OpFindRunesAt:
